@@ -159,6 +159,19 @@ def units(tier):
         for native in (False, True):
             add("B n=3 aaa cancel=%d native=%s" % (cancel, native), n=3, modes="aaa", cancel=cancel, native=native, T=1, J=1 if quick else 2)
     if not quick:
+        # three tasks, every cancel target and kind, both acquire modes, longer times
+        for modes in ("aaa", "aan", "ana", "aca", "apa"):
+            for cancel in (0, 1, 2):
+                for native in (False, True):
+                    if modes[cancel] in "np" and native:
+                        continue
+                    add("B n=3 %s cancel=%d native=%s J=2" % (modes, cancel, native), n=3, modes=modes, cancel=cancel, native=native, T=1, J=2)
+        for cancel in (0, 1):
+            for native in (False, True):
+                add("B n=2 aa T=3 cancel=%d native=%s" % (cancel, native), n=2, modes="aa", cancel=cancel, native=native, T=3, J=2)
+                add("B n=2 aa rounds=2 cancel=%d native=%s" % (cancel, native), n=2, modes="aa", cancel=cancel, native=native, rounds=2, T=1, J=2)
+        add("B n=4 aaaa cancel=1", n=4, modes="aaaa", cancel=1, T=1, J=0)
+        add("B n=4 aaaa cancel=2 native", n=4, modes="aaaa", cancel=2, native=True, T=1, J=0)
         add("B n=3 aan cancel=1", n=3, modes="aan", cancel=1, T=1)
         add("B n=3 aaa fast cancel=1 native", n=3, modes="aaa", cancel=1, native=True, fast=True, T=1)
         add("B n=2 aa rounds=2 cancel=0", n=2, modes="aa", cancel=0, rounds=2, T=1)
